@@ -511,8 +511,14 @@ impl<T: Transport, E: UtpEnvironment> Dispatcher<T, E> {
                 };
             }
             ControlRequest::Shutdown(key) => {
-                trace!(?key, "removing stream");
-                self.streams.remove(&key);
+                // The dead stream's entry may be gone already (on_recv() removes it when a packet for it
+                // comes first), and the key may belong to a new connection by now. Don't take that down.
+                if let Entry::Occupied(occ) = self.streams.entry(key) {
+                    if occ.get().is_closed() {
+                        trace!(?key, "removing stream");
+                        occ.remove();
+                    }
+                }
             }
         }
     }
